@@ -645,7 +645,7 @@ Qed.
 Definition exh : heap := mkHeap [Owned [1%Z]] [1] [] [] [false] [].
 Definition exP : hprogram := Build_hprogram [] [] [] 0 [] [].
 Definition exx : hext := Build_hext None false [] 0%Z.
-Definition exproc (st : list value) : proc := mkProc st [] [] false [] None None [].
+Definition exproc (st : list value) : proc := mkProc st [] [] false [] None None [] [].
 
 Lemma exh_WF : WFh exh.
 Proof.
